@@ -174,12 +174,22 @@ fn marker_fn(id: &str) -> Arc<dyn Fn(Vec<Value>) -> expression_engine::Result<Va
     marker_fn_ret(id, None)
 }
 
+/// the application keeps a handle on every function it registers (as a host that hot-reloads rules would): a replaced handler
+/// stays alive, so anything that assumes "replaced means dropped" shows
+static KEPT: Mutex<Vec<Arc<dyn Fn(Vec<Value>) -> expression_engine::Result<Value> + Send + Sync>>> = Mutex::new(Vec::new());
+
 fn marker_fn_ret(id: &str, ret: Option<Value>) -> Arc<dyn Fn(Vec<Value>) -> expression_engine::Result<Value> + Send + Sync> {
     let id = id.to_string();
-    Arc::new(move |_| {
+    let f: Arc<dyn Fn(Vec<Value>) -> expression_engine::Result<Value> + Send + Sync> = Arc::new(move |_| {
         handler_entry(&id);
         Ok(ret.clone().unwrap_or(Value::String(id.clone())))
-    })
+    });
+    if let Ok(mut k) = KEPT.lock() {
+        if k.len() < 100_000 {
+            k.push(f.clone());
+        }
+    }
+    f
 }
 
 fn handler_entry(id: &str) {
